@@ -172,6 +172,8 @@ def rand_terms(rng: random.Random, frame: dict, *, cats, nums, max_terms=5, max_
             continue
         seen.add(key)
         scale = rng.choice([None, None, None, "2", "2.5", "0.5", "3"]) if scales else None
+        if scale is not None and rng.random() < 0.06:  # a literal as written is the scale: however small, with however many digits
+            scale = rng.choice(["0.00000000125", "0.000000000043", "1234.5678901234567"])
         term = {"scale": scale, "scale_pos": rng.randint(0, k), "factors": fs}
         if scale and rng.random() < 0.3:  # a second, different literal somewhere else in the term: the scale is their product
             term["scale2"] = rng.choice([c for c in ["2", "2.5", "0.5", "3", "10"] if c != scale])
